@@ -41,8 +41,12 @@ Theorem C13_trust_region_ball_is_projected_last :
 Proof. vm_compute. repeat split; reflexivity. Qed.
 Theorem C13_zero_step_replaces_model_increase :
   existsb (fun a => streq (a_func a) "Controller.trust_region_step" && streq (a_target a) "d" && streq (a_value a) "np.zeros(d.shape)" &&
-                    has_guard (a_guards a) true "pred_reduction < 0.0" && has_guard (a_guards a) false "self.h is None") T_assigns = true.
-Proof. vm_compute. reflexivity. Qed.
+                    has_guard (a_guards a) true "pred_reduction < 0.0" && has_guard (a_guards a) false "self.h is None") T_assigns = true /\
+  (* ... where the predicted reduction compares h at the un-scaled incumbent with the regularised model value of the step *)
+  forallb (fun a => streq (a_value a) "self.h(remove_scaling(self.model.xopt(abs_coordinates=True), self.scaling_changes), *self.argsh) - model_value(gopt, H, d, self.model.xopt(abs_coordinates=True), self.h, self.argsh, self.scaling_changes)")
+          (filter (fun a => streq (a_func a) "Controller.trust_region_step" && streq (a_name a) "pred_reduction") T_assigns) = true /\
+  existsb (fun a => streq (a_func a) "Controller.trust_region_step" && streq (a_name a) "pred_reduction") T_assigns = true.
+Proof. vm_compute. repeat split; reflexivity. Qed.
 (* the geometry solvers return the better of the minimiser and the maximiser of the linear function *)
 Theorem C13_geometry_returns_better_of_two :
   forallb (fun f => existsb (fun r => streq (r_func r) f && has_guard (r_guards r) true "abs(c + np.dot(g, smin)) >= abs(c + np.dot(g, smax))") T_returns)
